@@ -422,6 +422,13 @@ def gen_macro_program(rng, dom=4):
                     args.append(rng.choice(cands))
                 if ok:
                     body.append(MacroCall(callee.name, args))
+        if bound_locs and rng.random() < 0.3:
+            # a generator over a range that ends in a macro-local variable, written inside a Rust macro: `for w in vec![0..n]...`
+            cands = [n for n in NAMES + [b + d for b in DIGIT_BASES for d in ('1', '2')] if n not in locs]
+            l = rng.choice(cands)
+            locs.append(l)
+            body.append(For(l, Wrap('vec![%s].into_iter().flatten()', Range(K(0), V(rng.choice(bound_locs))))))
+            bound_locs.append(l)
         eps = [p for p, k in params if k == 'expr' and p in used_params]
         if eps and rng.random() < 0.35:
             pe = V('$' + rng.choice(eps))
